@@ -493,9 +493,21 @@ func ruleS3Fields(r *core.Reporter) {
 				if app != nil {
 					for _, ii := range ir.Ifs(fn) {
 						a := ii.Atom
+						// "Size > 0" established: 0 < Size on the true edge, or Size <= 0 on the false edge
+						posTruth, isSizeTest := false, false
 						if a.V == nil && a.Op == token.LSS {
 							if z, okc := ir.ConstInt(a.X); okc && z == 0 && strings.HasSuffix(ir.Path(a.Y), ".Size") {
-								if ir.OnlyVia(body, app, ii.If.Block(), ii.EdgeWhen(true)) {
+								posTruth, isSizeTest = true, true
+							}
+						}
+						if a.V == nil && a.Op == token.LEQ {
+							if z, okc := ir.ConstInt(a.Y); okc && z == 0 && strings.HasSuffix(ir.Path(a.X), ".Size") {
+								posTruth, isSizeTest = false, true
+							}
+						}
+						if isSizeTest {
+							{
+								if ir.OnlyVia(body, app, ii.If.Block(), ii.EdgeWhen(posTruth)) {
 									// no other condition
 									okSize = true
 									for _, jj := range ir.Ifs(fn) {
